@@ -113,7 +113,7 @@ static void evflush(void)
 
 /* -------------------------------------------------------------- schemas */
 
-#define MAXSCHEMA 64
+#define MAXSCHEMA 1024
 #define MAXOPTS 64
 typedef struct {
 	int used;
